@@ -6,6 +6,10 @@ import Pycoin.Proofs.VMStepPick
 import Mathlib.Tactic.IntervalCases
 import Pycoin.Proofs.VMEval
 import Pycoin.Proofs.VMSigEnc
+import Pycoin.Proofs.VMEval2
+import Pycoin.Proofs.VMVerify2
+import Pycoin.Proofs.VMVerify3
+import Pycoin.Spec.Secp256k1
 /-!
 C03M — the Lean model of pycoin's script VM (`Pycoin.VM`, tied to the code by `harness/props/c03m.py`) against the
 consensus specification `Pycoin.Spec.Consensus` (Bitcoin Core's interpreter, sibling builder).
@@ -318,5 +322,281 @@ theorem C03M_pubkey_encoding (blob : Bytes) :
 theorem C03M_pubkey_compressed (blob : Bytes) :
     (decide (blob.length ≠ 33) || !(decide (blob.head? = some 2) || decide (blob.head? = some 3))) = !isCompressedPubKey blob :=
   compressedKey_eq blob
+
+
+/-! ## the CHECKSIG family
+
+The signature check proper (`generator.verify` of the sighash closure's digest; Core: `CheckSig`) is the shared
+parameter `chk`.  All the theorems below ask of it is `ChkWF chk`: an empty signature, a signature the lax DER parser
+rejects and a key whose length does not fit its first byte never verify (the early exits of Core's `CheckSig`,
+`C03M_chk_wf_core`).  Where the base signature version hashes a script code with the signatures removed, the agreement
+of pycoin's `_delete_signature` with Core's `FindAndDelete` is the hypothesis `DelAgrees` / `SigDelShared`, which
+`C03M_sigdel_eq` proves for every script code and signatures within 520 bytes; witness VMs delete nothing. -/
+
+/-- `der.sigdecode_der_lax` (index based port) = `ecdsa_signature_parse_der_lax` of the specification on **every** byte
+string: same failures, same `(r, s)` — up to libsecp256k1 overwriting an out-of-range signature with `(0, 0)` -/
+theorem C03M_sigenc_lax (sig : Bytes) : laxDerParse sig = (sigdecodeDerLax sig).map normSig := sigdecodeDerLax_spec sig
+
+/-- every signature that passes `IsValidSignatureEncoding` is read by the lax parser (so LOW_S never meets an
+unparseable signature) -/
+theorem C03M_sigenc_valid_parses (sig : Bytes) (hv : isValidSignatureEncoding sig = true) :
+    ∃ r s, sigdecodeDerLax sig.dropLast = some (r, s) := valid_decodes sig hv
+
+/-- `parse_and_check_signature_blob(sig, flags)` = `CheckSignatureEncoding(sig, flags)` for every byte string and flag
+set: it raises exactly when Core rejects (DERSIG/LOW_S/STRICTENC ⇒ strict DER; LOW_S ⇒ low S on the lax-parsed pair;
+STRICTENC ⇒ defined hash type), and otherwise yields a pair exactly when the blob is non-empty and lax-parsable -/
+theorem C03M_sigenc_blob (sig : Bytes) (n : Nat) :
+    (∃ e, parseAndCheckSignatureBlob sig n = .error e ∧ (checkSignatureEncoding sig (Flags.ofBits n)).isSome = true) ∨
+    (∃ p, parseAndCheckSignatureBlob sig n = .ok p ∧ checkSignatureEncoding sig (Flags.ofBits n) = none ∧
+        (p == .parsed) = (!sig.isEmpty && (laxDerParse sig.dropLast).isSome)) := parse_cases sig n
+
+#guard parseAndCheckSignatureBlob [0x30, 0x06, 0x02, 0x01, 0x01, 0x02, 0x01, 0x01, 0x01] 14 = .ok .parsed
+#guard (parseAndCheckSignatureBlob [0x30, 0x06, 0x02, 0x01, 0x01, 0x02, 0x01, 0x01, 0x00] 2).toOption = none
+
+section
+variable (chk : Bytes → Bytes → Bytes → Bool → Bool) (cfg : Config)
+
+/-- Core's `CheckSig` (`Spec/Secp256k1.checkSigWith`: key parse, empty signature, lax DER, ECDSA) has the early exits
+`ChkWF` asks for, whatever the signature hash: the hypothesis of the theorems below is satisfied by the real thing -/
+theorem C03M_chk_wf_core (sighash : Bytes → Bool → Nat → Bytes) :
+    ChkWF (fun sig pk code w => Spec.Secp256k1.checkSigWith (sighash code w) sig pk) := by
+  intro sig pk code w h
+  simp only [Spec.Secp256k1.checkSigWith] at h
+  cases hk : Spec.Secp256k1.parsePubKey pk with
+  | none => rw [hk] at h; cases h
+  | some Q =>
+    rw [hk] at h
+    cases hl : sig.getLast? with
+    | none => rw [hl] at h; cases h
+    | some ht =>
+      rw [hl] at h
+      cases hp : laxDerParse sig.dropLast with
+      | none => rw [hp] at h; cases h
+      | some rs =>
+        refine ⟨(by intro hs; subst hs; cases hl), rfl, ?_⟩
+        cases pk with
+        | nil => cases hk
+        | cons pre rest =>
+          simp only [Spec.Secp256k1.parsePubKey] at hk
+          unfold pubkeyShapeOk
+          split_ifs at hk with h1 h2
+          all_goals simp_all [← UInt8.toNat_inj]
+
+/-- **checksigs_eq**: the two nested `while` loops of `checksigs` (pycoin pops signatures and keys from the end, parses
+a signature once, tries it on keys while more keys than signatures remain) give the verdict of Core's
+`while (fSuccess && nSigsCount > 0)` loop, for **all** signature and key lists with `#sigs ≤ #keys` (no bound of 20
+needed), every flag set; both encodings are checked for every pair either side examines. Induction on the signature
+list, inner induction on the key list. -/
+theorem C03M_checksigs_eq (hwp : hasFlag cfg.flags Gen.VM.VERIFY_WITNESS_PUBKEYTYPE = true → cfg.witness = true)
+    (hchk : ChkWF chk) (code : Bytes) (sigs pubs : List Bytes) (h : sigs.length ≤ pubs.length) :
+    (checksigsLoop (stdEnv chk) cfg (.ok code) sigs pubs).toOption = (specMulti chk cfg code sigs pubs).toOption :=
+  checksigsLoop_spec chk cfg hwp hchk code sigs pubs h
+
+/-- C03.step_eq, OP_CHECKSIG / OP_CHECKSIGVERIFY at handler level, for every Core state: stack depth, both encodings,
+the check, NULLFAIL, the VERIFY suffix -/
+theorem C03M_step_eq_checksig (hwp : hasFlag cfg.flags Gen.VM.VERIFY_WITNESS_PUBKEYTYPE = true → cfg.witness = true)
+    (hchk : ChkWF chk) : ∀ op ∈ [0xac, 0xad],
+    ∃ h, Gen.VM.lookupList[op]? = some (h, false) ∧
+      ∀ (st : Consensus.State) (pc' : Nat), (∀ sigs, (∀ x ∈ sigs, x ∈ st.stack) → DelAgrees cfg st sigs) →
+        Agree pc' (runHandler (stdEnv chk) cfg h (absS st pc')) (specCheckSig chk cfg st op) := by
+  intro op hop
+  simp only [List.mem_cons, List.mem_nil_iff, or_false] at hop
+  rcases hop with rfl | rfl
+  · exact ⟨.sig_CHECKSIG, sig_table.1, fun st pc' hd => h_CHECKSIG chk cfg hwp hchk st pc' hd⟩
+  · exact ⟨.sig_CHECKSIGVERIFY, sig_table.2.1, fun st pc' hd => h_CHECKSIGVERIFY chk cfg hwp hchk st pc' hd⟩
+
+/-- C03.step_eq, OP_CHECKMULTISIG / OP_CHECKMULTISIGVERIFY at handler level, for every Core state and all `m ≤ n ≤ 20`:
+4-byte minimal counts and their ranges, stack depth, NULLDUMMY, the matching loops, NULLFAIL, the VERIFY suffix, and the
+op-count contribution of the key count — Core adds it and tests the limit before looking at the keys, pycoin
+(`vm.op_count += key_count` at the very end) only afterwards, so the comparison is made through `cntCheck`, the test
+`eval_instruction` applies right after the handler -/
+theorem C03M_step_eq_checkmultisig (hwp : hasFlag cfg.flags Gen.VM.VERIFY_WITNESS_PUBKEYTYPE = true → cfg.witness = true)
+    (hchk : ChkWF chk) : ∀ op ∈ [0xae, 0xaf],
+    ∃ h, Gen.VM.lookupList[op]? = some (h, false) ∧
+      ∀ (st : Consensus.State) (pc' : Nat), (∀ sigs, (∀ x ∈ sigs, x ∈ st.stack) → DelAgrees cfg st sigs) →
+        ((runHandler (stdEnv chk) cfg h (absS st pc')).bind cntCheck).toOption =
+          (specCheckMultiSig chk cfg st op).toOption.map (absS · pc') := by
+  intro op hop
+  simp only [List.mem_cons, List.mem_nil_iff, or_false] at hop
+  rcases hop with rfl | rfl
+  · exact ⟨.sig_CHECKMULTISIG, sig_table.2.2.1, fun st pc' hd => do_CHECKMULTISIG_spec chk cfg hwp hchk st pc' hd⟩
+  · exact ⟨.sig_CHECKMULTISIGVERIFY, sig_table.2.2.2, fun st pc' hd => do_CHECKMULTISIGVERIFY_spec chk cfg hwp hchk st pc' hd⟩
+
+/-- C03.step_eq at the level of `VM.eval_instruction`, **all 256 opcode values**: for every Core state `st` and every
+position `pc` inside the script, one `eval_instruction` on the pycoin state representing `st` and one iteration of
+Core's `EvalScript` loop both fail or both succeed with corresponding states.  Hypotheses: MINIMALIF and
+WITNESS_PUBKEYTYPE are only given to witness VMs (`check_solution` strips them otherwise: discharged in
+`C03M_verify_eq`), `ChkWF chk`, and signature deletion agrees for the signatures on this stack (trivial for witness VMs). -/
+theorem C03M_step_eq (st : Consensus.State) (pc : Nat) (hpc : pc < cfg.script.length)
+    (hw : hasFlag cfg.flags Gen.VM.VERIFY_MINIMALIF = true → cfg.witness = true)
+    (hwp : hasFlag cfg.flags Gen.VM.VERIFY_WITNESS_PUBKEYTYPE = true → cfg.witness = true) (hchk : ChkWF chk)
+    (hdel : ∀ sigs, (∀ x ∈ sigs, x ∈ st.stack) → DelAgrees cfg st sigs) :
+    match getScriptOp (cfg.script.drop pc) with
+    | none => (evalInstruction (stdEnv chk) cfg (absS st pc)).toOption = none
+    | some (op, data, _, size) =>
+        Agree (pc + size) (evalInstruction (stdEnv chk) cfg (absS st pc)) (specStep chk cfg st op data (pc + size)) :=
+  instr_eq_all chk cfg st pc hpc hw hwp hchk hdel
+
+/-- `C03M_step_eq` with the deletion hypothesis discharged: all it takes is that the stack items are within 520 bytes
+(any script code: `C03M_sigdel_eq`) -/
+theorem C03M_step_eq_items (st : Consensus.State) (pc : Nat) (hpc : pc < cfg.script.length)
+    (hw : hasFlag cfg.flags Gen.VM.VERIFY_MINIMALIF = true → cfg.witness = true)
+    (hwp : hasFlag cfg.flags Gen.VM.VERIFY_WITNESS_PUBKEYTYPE = true → cfg.witness = true) (hchk : ChkWF chk)
+    (hok : okL st.stack) :
+    match getScriptOp (cfg.script.drop pc) with
+    | none => (evalInstruction (stdEnv chk) cfg (absS st pc)).toOption = none
+    | some (op, data, _, size) =>
+        Agree (pc + size) (evalInstruction (stdEnv chk) cfg (absS st pc)) (specStep chk cfg st op data (pc + size)) :=
+  instr_eq_all chk cfg st pc hpc hw hwp hchk (fun sigs hm => delAgrees_all cfg st sigs (fun s hs => hok s (hm s hs)))
+
+/-- C03.eval_eq for arbitrary initial stacks, under the hypothesis that signature deletion is shared along the run
+(`SigDelShared`; by `C03M_sigdel_eq` it holds whenever the initial items are within 520 bytes, which is `C03M_eval_eq`): same verdict, and on success the same final stack -/
+theorem C03M_eval_eq_shared (hw : hasFlag cfg.flags Gen.VM.VERIFY_MINIMALIF = true → cfg.witness = true)
+    (hwp : hasFlag cfg.flags Gen.VM.VERIFY_WITNESS_PUBKEYTYPE = true → cfg.witness = true) (hchk : ChkWF chk)
+    (stack : List Bytes) (hdel : SigDelShared chk cfg stack) :
+    (evalScript (stdEnv chk) cfg stack).toOption.map (·.stack) =
+      (Consensus.evalScript (specChk chk) stack cfg.script (Flags.ofBits cfg.flags)
+        ⟨cfg.ctx.version, cfg.ctx.lockTime, cfg.ctx.sequence⟩ (if cfg.witness then .witnessV0 else .base)).toOption :=
+  evalScript_eq_all chk cfg hw hwp hchk stack hdel
+
+/-- **signature deletion agrees**: pycoin's `_delete_signature` (instruction walk dropping the instructions equal to the
+canonical push of the signature and keeping an undecodable tail verbatim — since the repair a9b3b8d; signatures taken
+bottom-most first) and Core's `FindAndDelete(scriptCode, CScript() << sig)` (top-most first) give the same script code for
+**every** script code and every list of signatures of at most 520 bytes; and along Core's run of any script on items
+within 520 bytes this is always so (items never exceed 520 bytes: `specStep_items`) -/
+theorem C03M_sigdel_eq :
+    (∀ (st : Consensus.State) (sigs : List Bytes), (∀ s ∈ sigs, s.length ≤ 520) → DelAgrees cfg st sigs) ∧
+    (∀ stack0, okL stack0 → SigDelShared chk cfg stack0) :=
+  ⟨fun st sigs hl => delAgrees_all cfg st sigs hl, fun stack0 hok => sigDelShared_items chk cfg stack0 hok⟩
+
+/-- a script with an undecodable instruction fails its evaluation on both sides (BAD_OPCODE at the latest when the loop
+gets there, even in a dead branch), whatever happened before — no assumption on signature deletion -/
+theorem C03M_eval_unwalkable (hw : hasFlag cfg.flags Gen.VM.VERIFY_MINIMALIF = true → cfg.witness = true)
+    (hnw : ¬ Walkable cfg.script) (stack : List Bytes) :
+    (evalScript (stdEnv chk) cfg stack).toOption = none ∧
+      (Consensus.evalScript (specChk chk) stack cfg.script (Flags.ofBits cfg.flags)
+        ⟨cfg.ctx.version, cfg.ctx.lockTime, cfg.ctx.sequence⟩ (if cfg.witness then .witnessV0 else .base)).toOption = none :=
+  evalScript_unwalkable chk cfg hw hnw stack
+
+/-- C03.eval_eq, **every script**: `VM(script, …, initial_stack).eval_script()` and Core's `EvalScript` give the same
+verdict and, on success, the same final stack, for all scripts (decodable or not, CHECKSIG family included), all initial
+stacks whose items are within `MAX_SCRIPT_ELEMENT_SIZE` (as every stack `check_solution` builds: `compile_push_data` of a
+≥ 4 GiB signature raises `struct.error`, which Core has no counterpart for), all flag sets, transaction contexts and both
+signature versions.  Remaining hypotheses: MINIMALIF / WITNESS_PUBKEYTYPE only in witness VMs (discharged in
+`C03M_verify_eq`) and `ChkWF`. -/
+theorem C03M_eval_eq (hw : hasFlag cfg.flags Gen.VM.VERIFY_MINIMALIF = true → cfg.witness = true)
+    (hwp : hasFlag cfg.flags Gen.VM.VERIFY_WITNESS_PUBKEYTYPE = true → cfg.witness = true) (hchk : ChkWF chk)
+    (stack : List Bytes) (hok : okL stack) :
+    (evalScript (stdEnv chk) cfg stack).toOption.map (·.stack) =
+      (Consensus.evalScript (specChk chk) stack cfg.script (Flags.ofBits cfg.flags)
+        ⟨cfg.ctx.version, cfg.ctx.lockTime, cfg.ctx.sequence⟩ (if cfg.witness then .witnessV0 else .base)).toOption :=
+  evalScript_eq_full chk cfg hw hwp hchk stack hok
+
+/-- C03.eval_eq for witness (BIP143) VMs: no hypothesis beyond `ChkWF` — every witness script, every initial stack,
+every flag set -/
+theorem C03M_eval_eq_witness (hchk : ChkWF chk) (hwit : cfg.witness = true) (stack : List Bytes) :
+    (evalScript (stdEnv chk) cfg stack).toOption.map (·.stack) =
+      (Consensus.evalScript (specChk chk) stack cfg.script (Flags.ofBits cfg.flags)
+        ⟨cfg.ctx.version, cfg.ctx.lockTime, cfg.ctx.sequence⟩ .witnessV0).toOption := by
+  have := evalScript_eq_all chk cfg (fun _ => hwit) (fun _ => hwit) hchk stack (sigDelShared_witness chk cfg hwit stack)
+  rw [hwit] at this
+  exact this
+
+end
+
+-- `ChkWF` is satisfiable by checkers that accept something, and the conclusions are about non-trivial runs:
+-- 1-of-2 CHECKMULTISIG whose signature matches the second (deeper) key, then the same under NULLFAIL with a wrong signature
+def demoSig : Bytes := [0x30, 0x06, 0x02, 0x01, 0x01, 0x02, 0x01, 0x01, 0x01]
+def demoKey (b : UInt8) : Bytes := 0x02 :: List.replicate 32 b
+def demoChk : Bytes → Bytes → Bytes → Bool → Bool := fun sig pk _ _ => sig == demoSig && pk == demoKey 7
+example : ChkWF demoChk := by
+  intro sig pk code w h
+  simp only [demoChk, Bool.and_eq_true, beq_iff_eq] at h
+  obtain ⟨rfl, rfl⟩ := h
+  exact ⟨by decide, by decide, by decide⟩
+#guard ((evalScript (stdEnv demoChk) ⟨[0xae], ⟨0, 0, 1⟩, 0, true⟩ [[2], demoKey 9, demoKey 7, [1], demoSig, []]).toOption.map
+  (·.stack)) = some [[1]]
+#guard (Consensus.evalScript (specChk demoChk) [[2], demoKey 9, demoKey 7, [1], demoSig, []] [0xae] (Flags.ofBits 0) ⟨1, 0, 0⟩
+  .witnessV0).toOption = some [[1]]
+#guard ((evalScript (stdEnv demoChk) ⟨[0xae], ⟨0, 0, 1⟩, 16384, true⟩ [[2], demoKey 9, demoKey 8, [1], demoSig, []]).toOption.map
+  (·.stack)) = none
+#guard (Consensus.evalScript (specChk demoChk) [[2], demoKey 9, demoKey 8, [1], demoSig, []] [0xae] (Flags.ofBits 16384) ⟨1, 0, 0⟩
+  .witnessV0).toOption = none
+
+/-- why `ChkWF` is asked: a checker that "verifies" an empty signature separates the two sides (pycoin never asks it) -/
+theorem C03M_chk_wf_needed :
+    (evalScript (stdEnv fun _ _ _ _ => true) ⟨[0xac], ⟨0, 0, 1⟩, 0, true⟩ [demoKey 7, []]).toOption.map (·.stack) ≠
+      (Consensus.evalScript (specChk fun _ _ _ _ => true) [demoKey 7, []] [0xac] (Flags.ofBits 0) ⟨1, 0, 0⟩ .witnessV0).toOption := by
+  decide
+
+
+/-! ## the whole spend check: `check_solution` = `VerifyScript` -/
+
+section
+variable (chk : Bytes → Bytes → Bytes → Bool → Bool)
+
+/-- `_check_script_push_only` (walks `get_opcode`, ignores decode failures; `data_opcodes` leaves OP_RESERVED out) and
+`CScript::IsPushOnly` accept the same scripts among those `EvalScript` runs to the end — a script on which they differ
+(truncated push, OP_RESERVED) fails its own evaluation, on both sides -/
+theorem C03M_verify_pushonly (cfg : Config) (stack : List Bytes) (st' : Consensus.State)
+    (h : specLoop chk cfg cfg.script.length cfg.script 0 { stack := stack } = .ok st') :
+    (checkScriptPushOnly cfg.script = .ok ()) ↔ isPushOnly cfg.script = true := pushonly_agree chk cfg stack st' h
+
+/-- `EvalScript` looks at the flags in `evalPart` only: stripping MINIMALIF / WITNESS_PUBKEYTYPE / P2SH from the flags of a
+base-version VM, or adding CLEANSTACK to those of a witness VM, as `check_solution` does, changes no evaluation -/
+theorem C03M_verify_flags (sc : Bytes → Bytes → Bytes → SigVersion → Bool) (stack : List Bytes) (script : Bytes)
+    (F G : Flags) (tx : Consensus.TxCtx) (sv : SigVersion) (h : evalPart sv F = evalPart sv G) :
+    Consensus.evalScript sc stack script F tx sv = Consensus.evalScript sc stack script G tx sv :=
+  evalScript_congr sc stack script F G tx sv h
+
+/-- witness-program detection: `_witness_program_version` + `puzzle_script[2:]` = `CScript::IsWitnessProgram`;
+`is_pay_to_script_hash` = `CScript::IsPayToScriptHash` -/
+theorem C03M_verify_detect (s : Bytes) :
+    isWitnessProgram s = (witnessProgramVersion s).map (fun v => (v, s.drop 2)) ∧
+      isPayToScriptHash s = Consensus.isPayToScriptHash s := ⟨witnessProgram_eq s, isP2SH_eq s⟩
+
+/-- the end of the pipeline, for the script `puzzle` to be tested (scriptPubKey, or redeem script when `isP2sh`):
+`witness_program_tuple` (malleation rule on the scriptSig bytes, v0 20/32-byte rules, 520-byte item limit, P2WPKH script,
+DISCOURAGE_UPGRADABLE_WITNESS_PROGRAM, WITNESS_UNEXPECTED), the witness VM, and the CLEANSTACK rule with the flags of the
+last tuple = the rest of `VerifyScript` (`VerifyWitnessProgram`, `stack.resize(1)`, CLEANSTACK, WITNESS_UNEXPECTED) -/
+theorem C03M_verify_tail (hchk : ChkWF chk) (c : SolCtx) (puzzle : Bytes) (flags : Nat) (isP2sh : Bool) (lastFlags : Nat)
+    (stackPy : List Bytes) (hcl : hasFlag lastFlags Gen.VM.VERIFY_CLEANSTACK = (Flags.ofBits flags).cleanstack) :
+    (witnessTail (stdEnv chk) c puzzle flags isP2sh lastFlags stackPy).toOption.isSome =
+      (specTail (specChk chk) c.solutionScript c.witnessPy (Flags.ofBits flags) (specTx c.tx) puzzle isP2sh stackPy.length).isNone :=
+  witnessTail_spec chk hchk c puzzle flags isP2sh lastFlags stackPy hcl
+
+/-- `C03M_verify_eq` from the agreement of its (up to) three base-version VMs with `EvalScript` (stage form) -/
+theorem C03M_verify_eq_stages (hchk : ChkWF chk) (c : SolCtx) (flags : Nat) (hag : VerifyAgree chk c flags) :
+    (checkSolution (stdEnv chk) c flags).toOption.isSome =
+      (verifyScript (specChk chk) c.solutionScript c.puzzleScript c.witnessPy (Flags.ofBits flags) (specTx c.tx)).isNone :=
+  verify_eq chk hchk c flags hag
+
+/-- **C03.verify_eq**: `BitcoinSolutionChecker.check_solution(tx_context, flags)` succeeds exactly when Core's
+`VerifyScript(scriptSig, scriptPubKey, witness, flags)` does — for **every** scriptSig, scriptPubKey, witness stack, flag
+set (no restriction to the combinations Core permits) and transaction context, with no hypothesis other than `ChkWF`:
+SIGPUSHONLY, scriptSig evaluation, stack copy, scriptPubKey evaluation, truth test, P2SH detection / push-only rule /
+redeem script, witness-program detection (native and P2SH-wrapped), malleation rules on the scriptSig bytes, v0 20/32-byte
+rules, P2WPKH script, 520-byte items, upgradable versions / DISCOURAGE flag, CLEANSTACK, WITNESS_UNEXPECTED.  The
+MINIMALIF / WITNESS_PUBKEYTYPE hypothesis of `C03M_eval_eq` is discharged from how `check_solution` builds its VMs, the
+item-size hypothesis from the invariant of Core's run (`spec_eval_items`). -/
+theorem C03M_verify_eq (hchk : ChkWF chk) (c : SolCtx) (flags : Nat) :
+    (checkSolution (stdEnv chk) c flags).toOption.isSome =
+      (verifyScript (specChk chk) c.solutionScript c.puzzleScript c.witnessPy (Flags.ofBits flags) (specTx c.tx)).isNone :=
+  verify_eq_full chk hchk c flags
+
+end
+
+-- non-trivial runs of both sides of `C03M_verify_eq` (the checker `demoChk` satisfies `ChkWF`, see above):
+-- a pay-to-pubkey spend with a matching signature; the same with a key the signature does not match under NULLFAIL;
+-- a native P2WSH spend of the witness script `OP_1`; the same with a non-empty scriptSig (WITNESS_MALLEATED)
+def demoPush (d : Bytes) : Bytes := UInt8.ofNat d.length :: d
+#guard (checkSolution (stdEnv demoChk) ⟨demoPush demoSig, demoPush (demoKey 7) ++ [0xac], [], ⟨0, 0, 1⟩⟩ 2049).toOption.isSome
+#guard (verifyScript (specChk demoChk) (demoPush demoSig) (demoPush (demoKey 7) ++ [0xac]) [] (Flags.ofBits 2049) ⟨1, 0, 0⟩).isNone
+#guard !(checkSolution (stdEnv demoChk) ⟨demoPush demoSig, demoPush (demoKey 8) ++ [0xac], [], ⟨0, 0, 1⟩⟩ (2049 + 16384)).toOption.isSome
+#guard !(verifyScript (specChk demoChk) (demoPush demoSig) (demoPush (demoKey 8) ++ [0xac]) [] (Flags.ofBits (2049 + 16384)) ⟨1, 0, 0⟩).isNone
+#guard (checkSolution (stdEnv demoChk) ⟨[], [0x00, 0x20] ++ Hash.sha256 [0x51], [[0x51]], ⟨0, 0, 1⟩⟩ 2049).toOption.isSome
+#guard (verifyScript (specChk demoChk) [] ([0x00, 0x20] ++ Hash.sha256 [0x51]) [[0x51]] (Flags.ofBits 2049) ⟨1, 0, 0⟩).isNone
+#guard !(checkSolution (stdEnv demoChk) ⟨[0x00], [0x00, 0x20] ++ Hash.sha256 [0x51], [[0x51]], ⟨0, 0, 1⟩⟩ 2049).toOption.isSome
+#guard !(verifyScript (specChk demoChk) [0x00] ([0x00, 0x20] ++ Hash.sha256 [0x51]) [[0x51]] (Flags.ofBits 2049) ⟨1, 0, 0⟩).isNone
 
 end Pycoin.VM
